@@ -304,6 +304,18 @@ def manager_cells():
                         continue
                     if len(args) >= 2 or not args:
                         cells.append(('upload', mode, args, False))
+    # allowed arguments given with an EMPTY value (Metadata={}, Tagging='', ContentType=''): a value like any other, forwarded unchanged
+    # (marked by a trailing '=' on the name; only names whose shape accepts an empty value)
+    for method, allowed in (('upload', TransferManager.ALLOWED_UPLOAD_ARGS), ('copy', TransferManager.ALLOWED_COPY_ARGS),
+                            ('download', TransferManager.ALLOWED_DOWNLOAD_ARGS)):
+        for a in allowed:
+            shp = find_shape(a)
+            if shp is None or getattr(shp, 'enum', None) or shp.type_name not in ('string', 'map') or (shp.metadata or {}).get('min'):
+                continue
+            if a.startswith(('Checksum', 'SSECustomerKey', 'CopySourceSSECustomerKey')) or a in ('IfMatch', 'IfNoneMatch'):
+                continue
+            for mode in ('single', 'multi'):
+                cells.append((method, mode, [a + '='], False))
     # a few multi-argument cells
     cells.append(('copy', 'multi', ['CopySourceIfMatch', 'SSECustomerKey', 'SSECustomerAlgorithm', 'RequestPayer', 'MetadataDirective', 'Metadata'], False))
     cells.append(('upload', 'multi', ['SSECustomerKey', 'SSECustomerAlgorithm', 'RequestPayer', 'ExpectedBucketOwner', 'Metadata', 'Tagging'], False))
@@ -341,6 +353,10 @@ def run_manager_cells(case):
         for (method, mode, args, ps) in case['cells']:
             extra = {}
             for a in args:
+                if a.endswith('='):
+                    a = a[:-1]
+                    extra[a] = {} if find_shape(a).type_name == 'map' else ''
+                    continue
                 shp = find_shape(a)
                 extra[a] = value_for(a, shp) if shp is not None else f'vf-{a}'
             if 'ChecksumType' in extra and not any(a in FULL for a in extra):
